@@ -45,8 +45,10 @@ func c20sectionOrder(c *fw.Check) {
 		}
 	}
 	var want []string
+	dup := map[string]bool{}
 	for _, s := range names {
-		if s != "" {
+		if s != "" && !dup[s] {
+			dup[s] = true
 			want = append(want, s)
 		}
 	}
